@@ -81,7 +81,9 @@ def gen_specs(ctx, pid):
     for i in range(n):
         wild = i % 3 == 2
         spec = GD.gen_spec(rng, wild=wild, max_tables=6 if pid != 'C18' else 7)
-        if pid == 'C03':
+        if pid == 'C03' and i % 2 == 0:
+            # half of the databases without references (tables/columns/indexes in isolation), half with: "each table
+            # exactly once" is stated for every database
             spec = strip_refs(spec)
         if pid == 'C18':
             # more inline references, fewer distractions
